@@ -16,7 +16,7 @@ checks = {
    technique="bounded exhaustive enumeration of source texts (token, template, truncation and byte spaces) with crash-isolated execution"),
  "C10": dict(level="model_checking", design="§4 C10",
    text="Explicit-state BFS over histories of 312 container operations (index/slice reads and writes over the whole index pool, append forms, delete, in, len, member access, typed stores, aliasing through assignment and calls) on untyped and typed slices, maps, strings and a struct, from 3 initial configurations, depth 2 over the full alphabet + depth 3 over a core alphabet (quick) / depth 3 full (thorough); a Go model built from real slices and maps runs in lock-step and after every transition outcome, value and a canonical dump of all variables (with backing-array sharing) are compared.",
-   note="Under-determined points (float/bool/numeric-string indices, nil into typed slots, multi-character string stores, variables still bound to a typed slot) are not compared; listed in notes/C10.md.",
+   note="Under-determined points (float/bool/numeric-string indices, nil into typed slots, multi-character string stores) are not compared; listed in notes/C10.md.",
    technique="explicit-state model checking (BFS, canonical-state de-duplication on the model), model traces replayed on the implementation at every transition"),
  "C11": dict(level="exploration", design="§4 C11",
    text="Go signatures manufactured with reflect.FuncOf/MakeFunc over a 24-type pool (704 functions quick, 8896 thorough: 1-, 2- and 3-parameter, fixed and variadic, 0-3 results) x every script value kind x four call shapes (fixed/variadic x plain/spread); the recorded arguments must be exactly what an independent refConvert(v,T) yields or the call must fail; plus round trips of every pool type through Define/containers/identity functions, struct member reads/writes/methods, and script callbacks of every func type.",
